@@ -354,3 +354,20 @@ func cmdSym(args []string) {
 		}
 	}
 }
+
+func init() {
+	if v := os.Getenv("KVERIF_STORES"); v != "" {
+		// debug: KVERIF_STORES=<field key> prints the value-origin terms of every store into that field
+		L, err := load(loadOpts{})
+		if err != nil {
+			panic(err)
+		}
+		L.buildSSA()
+		for _, st := range storesToField(pkgFuncs(L, genPkg), v) {
+			s := newSym(L, map[string]bool{})
+			s.maxD = 0
+			fmt.Println(L.pos(st.Pos()), fnName(st.Parent()), strings.Join(s.eval(st.Val), " | "))
+		}
+		os.Exit(0)
+	}
+}
